@@ -150,6 +150,7 @@ impl Check for C01Stream {
             30 => arb_stream(CharSet::Bmp, 6),
             10 => arb_stream(CharSet::Full, 8),
             3 => arb_long_stream(),
+            1 => arb_huge_value_stream(),
         ]
         .prop_map(|s| Case01 { input: s.bytes, touching: s.touching })
         .boxed()
@@ -175,6 +176,7 @@ impl Check for C01Stream {
             .class_if(depth >= 32, "depth>=32")
             .class_if(exp.is_empty(), "empty_stream")
             .class_if(input.len() > 8192, "longer_than_8KiB")
+            .class_if(exp.iter().any(|x| x.2 - x.1 > 65536), "value_larger_than_64KiB")
             .class_if(exp.len() >= 128, "128_or_more_values")
             .obs(json!({"values": exp.len(), "stdout": esc_trunc(&out.stdout, 300)}));
         if !out.res.is_ok() {
